@@ -47,6 +47,10 @@
 (*   "rbLost"     the delete of the mapping record in a rollback failed itself                *)
 (*   "reclaim"    (Reclaim only) a lost claim is treated as won because the key holds the      *)
 (*                caller's own client id: a second holder of one claim                        *)
+(*   "resetUndoesRevoke" (ResetOnFail only) the rollback's write-back of the stale record      *)
+(*                erases a revoke that completed meanwhile                                    *)
+(*   "claimLapsed" (ShortClaim only) the claim key is gone (its TTL ran out) although the     *)
+(*                code can still be activated                                                 *)
 (*   "localClaim" (ClaimLocal only) a claim is won on one node while another node's local     *)
 (*                cache tier holds a claim for the same code (the claim is not cluster-wide)  *)
 (*                                                                                            *)
@@ -70,6 +74,11 @@ CONSTANTS Acts,       \* activator processes (each = one listen client, one Acti
                       \* first request is in flight); every other activator is its own client
           Reclaim,    \* TRUE: design variant "idempotent re-claim": a lost SetNX counts as won when the claim key
                       \* holds the caller's own client id (read back with a Get)
+          ResetOnFail,\* TRUE: design variant: after a failed final Update the rollback also writes the activation's own
+                      \* (stale) copy of the code record back as "not activated" (2 more Sets: RstC, RstI)
+          CanTick,    \* TRUE: time may pass (once, action Tick) by less than the code's remaining lifetime
+          ShortClaim, \* TRUE: design variant: the claim key's TTL is shorter than the code's remaining lifetime,
+                      \* so it is gone after a Tick although the code can still be activated
           ClaimLocal, \* TRUE: the claim key is classified as node-local runtime data (each node's SetNX goes to
                       \* its own local cache) - the design the code has when the claim key leaves the shared prefix
           Emit
@@ -101,14 +110,18 @@ VARIABLES rec, recId,    \* the code record under its two keys: [p, act, rev, by
           pc, snap, res, \* per process: program counter, snapshot read, result ("none" | "ok" | "fail")
           faultLeft,
           qheld,         \* activators holding their (node, client) quota lock
+          ticked,        \* the Tick has happened
           validSeen,     \* ghost: the code was valid at some instant since p's call
+          dead,          \* ghost: the code has been revoked by a call that returned success, or has expired
+          aliveAtCall,   \* ghost: per process, ~dead at the moment of its call
           dev,           \* ghost: deviations that occurred
           hist
-vars  == <<rec, recId, expired, claim, maps, glist, clist, idkeys, pc, snap, res, faultLeft, qheld, validSeen, dev, hist>>
-view  == <<rec, recId, expired, claim, maps, glist, clist, idkeys, pc, snap, res, faultLeft, qheld, validSeen, dev>>
-gview == <<rec, recId, expired, claim, maps, glist, clist, idkeys, pc, snap, res, faultLeft, qheld>>
+vars  == <<rec, recId, expired, claim, maps, glist, clist, idkeys, pc, snap, res, faultLeft, qheld, ticked, validSeen, dead, aliveAtCall, dev, hist>>
+view  == <<rec, recId, expired, claim, maps, glist, clist, idkeys, pc, snap, res, faultLeft, qheld, ticked, validSeen, dead, aliveAtCall, dev>>
+gview == <<rec, recId, expired, claim, maps, glist, clist, idkeys, pc, snap, res, faultLeft, qheld, ticked>>
 
-Rec0 == [p |-> TRUE, act |-> FALSE, rev |-> FALSE, by |-> "none", target |-> Target]
+\* rst (only meaningful in a process's snapshot): the rollback must also reset the code record (ResetOnFail)
+Rec0 == [p |-> TRUE, act |-> FALSE, rev |-> FALSE, by |-> "none", target |-> Target, rst |-> FALSE]
 Pre(a) == "pre_" \o a
 
 NoClaim == [s \in Slots |-> "none"]
@@ -118,7 +131,9 @@ Init == /\ rec = Rec0 /\ recId = Rec0 /\ expired = FALSE /\ claim = NoClaim
         /\ idkeys = {}
         /\ pc = [p \in Procs |-> "idle"] /\ snap = [p \in Procs |-> Rec0] /\ res = [p \in Procs |-> "none"]
         /\ faultLeft = MaxFault /\ qheld = {}
-        /\ validSeen = [p \in Procs |-> FALSE] /\ dev = {} /\ hist = <<>>
+        /\ ticked = FALSE
+        /\ validSeen = [p \in Procs |-> FALSE] /\ dead = FALSE /\ aliveAtCall = [p \in Procs |-> FALSE]
+        /\ dev = {} /\ hist = <<>>
 
 Out(h) == IF Emit THEN PrintT("BEH " \o ToJson(h)) ELSE TRUE
 \* w: after this step p waits for the quota lock (no storage gate is reached); g: the waiter that was handed
@@ -141,7 +156,8 @@ Return(p, r) == LET W == {q \in Acts \ {p} : pc[q] = "WLock" /\ LockId(q) = Lock
                                      /\ qheld' = (qheld \ {p}) \cup {q}
                    ELSE pc' = [pc EXCEPT ![p] = "done"] /\ qheld' = qheld \ {p}
 \* a failure after the claim was won releases the claim before returning
-Leave(p)    == IF Claim THEN Goto(p, "RelClaim") ELSE Return(p, "fail")
+AfterReset(p) == IF Claim THEN Goto(p, "RelClaim") ELSE Return(p, "fail")
+Leave(p)    == IF snap[p].rst THEN Goto(p, "RstC") ELSE AfterReset(p)
 UseFault(f) == /\ f => faultLeft > 0
                /\ faultLeft' = IF f THEN faultLeft - 1 ELSE faultLeft
 Mine(p)     == {m \in maps : m.id = p}
@@ -252,18 +268,21 @@ IdxT(p, f) == /\ pc[p] = "IdxT" /\ UseFault(f)
               /\ UNCHANGED <<rec, recId, expired, claim, maps, glist, idkeys, snap, dev>>
               /\ Log(p, "IdxT", f)
 
-Activated(p) == [p |-> TRUE, act |-> TRUE, rev |-> snap[p].rev, by |-> p, target |-> snap[p].target]
+Activated(p) == [p |-> TRUE, act |-> TRUE, rev |-> snap[p].rev, by |-> p, target |-> snap[p].target, rst |-> FALSE]
+MarkReset(p) == IF ResetOnFail THEN [snap EXCEPT ![p].rst = TRUE] ELSE snap
 
 UpdC(p, f) == /\ pc[p] = "UpdC" /\ UseFault(f)
               /\ rec' = IF f \/ expired THEN rec ELSE Activated(p)     \* a record written after expiry lapses at once
               /\ Goto(p, IF f THEN "RbGet" ELSE "UpdI")
-              /\ UNCHANGED <<recId, expired, claim, maps, glist, clist, idkeys, snap, dev>>
+              /\ snap' = IF f THEN MarkReset(p) ELSE snap
+              /\ UNCHANGED <<recId, expired, claim, maps, glist, clist, idkeys, dev>>
               /\ Log(p, "UpdC", f)
 
 UpdI(p, f) == /\ pc[p] = "UpdI" /\ UseFault(f)
               /\ recId' = IF f \/ expired THEN recId ELSE Activated(p)
               /\ IF f THEN Goto(p, "RbGet") ELSE Return(p, "ok")
-              /\ UNCHANGED <<rec, expired, claim, maps, glist, clist, idkeys, snap, dev>>
+              /\ snap' = IF f THEN MarkReset(p) ELSE snap
+              /\ UNCHANGED <<rec, expired, claim, maps, glist, clist, idkeys, dev>>
               /\ Log(p, "UpdI", f)
 
 RbGet(p) == /\ pc[p] = "RbGet"
@@ -303,6 +322,24 @@ RbRelId(p, f) == /\ pc[p] = "RbRelId" /\ UseFault(f)
                  /\ UNCHANGED <<rec, recId, expired, claim, maps, glist, clist, snap, dev>>
                  /\ Log(p, "RbRelId", f)
 
+\* design variant ResetOnFail: write the activation's own copy of the record back as "not activated"
+\* (the copy was read at the start of the call: whatever was written to the record since is overwritten)
+ResetRec(p) == [snap[p] EXCEPT !.act = FALSE, !.by = "none", !.rst = FALSE]
+RstC(p, f) == /\ pc[p] = "RstC" /\ UseFault(f)
+              /\ rec' = IF f \/ expired THEN rec ELSE ResetRec(p)
+              \* deviation: a revoke that wrote the record after p had read it is erased (its "revoked" flag is gone
+              \* from the record - overwritten by this write-back, or earlier by p's own UpdC and now not even "activated" remains)
+              /\ dev' = IF ~f /\ ~expired /\ HasRev /\ (pc[Rev] = "RUpdI" \/ res[Rev] = "ok")
+                        THEN dev \cup {"resetUndoesRevoke"} ELSE dev
+              /\ Goto(p, "RstI")
+              /\ UNCHANGED <<recId, expired, claim, maps, glist, clist, idkeys, snap>>
+              /\ Log(p, "RstC", f)
+RstI(p, f) == /\ pc[p] = "RstI" /\ UseFault(f)
+              /\ recId' = IF f \/ expired THEN recId ELSE ResetRec(p)
+              /\ AfterReset(p)
+              /\ UNCHANGED <<rec, expired, claim, maps, glist, clist, idkeys, snap, dev>>
+              /\ Log(p, "RstI", f)
+
 RelClaim(p, f) == /\ pc[p] = "RelClaim" /\ UseFault(f)
                   /\ claim' = IF f THEN claim ELSE [claim EXCEPT ![Slot(p)] = "none"]
                   /\ Return(p, "fail")
@@ -340,15 +377,25 @@ Expire == /\ CanExpire /\ ~expired
           /\ UNCHANGED <<maps, glist, clist, idkeys, pc, snap, res, faultLeft, qheld, dev>>
           /\ Log("env", "Expire", FALSE)
 
+\* time passes, but less than the code can still be activated: nothing in the code's validity changes; a claim
+\* key that was given a shorter lifetime than the code (ShortClaim) is gone afterwards
+Tick == /\ CanTick /\ ~ticked /\ ~expired
+        /\ \E p \in Procs : pc[p] # "done"
+        /\ claim' = IF ShortClaim THEN NoClaim ELSE claim
+        /\ dev' = IF ShortClaim /\ claim # NoClaim THEN dev \cup {"claimLapsed"} ELSE dev   \* deviation: a claim lapses while the code lives
+        /\ UNCHANGED <<rec, recId, expired, maps, glist, clist, idkeys, pc, snap, res, faultLeft, qheld>>
+        /\ Log("env", "Tick", FALSE)
+
 ReadSteps(p)  == Call(p) \/ Read(p) \/ QList(p) \/ QGet(p) \/ ClaimGet(p) \/ CGet(p) \/ RbGet(p) \/ RRead(p)
 WriteSteps(p, f) ==
    \/ ClaimIt(p, f) \/ GenId(p, f) \/ CSet(p, f) \/ CApp(p, f) \/ CDel(p, f) \/ RelId(p, f)
    \/ IdxL(p, f) \/ IdxT(p, f) \/ UpdC(p, f) \/ UpdI(p, f)
    \/ RbRemL(p, f) \/ RbRemT(p, f) \/ RbRemG(p, f) \/ RbDel(p, f) \/ RbRelId(p, f) \/ RelClaim(p, f)
+   \/ RstC(p, f) \/ RstI(p, f)
    \/ RUpdC(p, f) \/ RUpdI(p, f)
 
 Step == \/ \E p \in Procs : ReadSteps(p) \/ (\E f \in BOOLEAN : WriteSteps(p, f))
-        \/ Expire
+        \/ Expire \/ Tick
 
 \* ghost: validity observed by every call in flight (at its call and after every step)
 Next == /\ Step
@@ -356,6 +403,10 @@ Next == /\ Step
               IF pc[p] = "done" THEN validSeen[p]
               ELSE IF pc[p] = "idle" /\ pc'[p] = "idle" THEN FALSE
               ELSE validSeen[p] \/ Valid(rec, expired) \/ Valid(rec', expired')]
+        /\ ticked' = (ticked \/ hist'[Len(hist')].a = "Tick")
+        \* the code is dead for good once a revoke has returned success or the activation TTL has elapsed
+        /\ dead' = (dead \/ expired' \/ (HasRev /\ res'[Rev] = "ok"))
+        /\ aliveAtCall' = [p \in Procs |-> IF pc[p] = "idle" /\ pc'[p] # "idle" THEN ~dead ELSE aliveAtCall[p]]
 Spec == Init /\ [][Next]_vars
 
 \* ---- properties (C06) --------------------------------------------------------------------
@@ -369,6 +420,9 @@ AtMostOneMapping == Quiet => Cardinality(maps) <= 1
 AtMostOneSuccess == Cardinality(Winners) <= 1
 \*     ... and only if the code was valid (not expired / revoked / used) at some instant between call and return
 SuccessWasValid == \A p \in Winners : validSeen[p]
+\*     ... and never when the code had already been revoked (by a revoke that had returned) or had expired
+\*     before the activation was even called - whatever the code RECORD says by then
+NoActivationAfterDeath == \A p \in Winners : aliveAtCall[p]
 \* (3) a failed activation leaves no mapping behind
 FailedLeavesNone == \A p \in Acts : (Returned(p) /\ res[p] = "fail") => Mine(p) = {}
 \* (4) the mapping targets what the code fixed and listens for the activator
@@ -383,6 +437,11 @@ AtMostOneSuccessQ == AtMostOneSuccess \/ "reclaim" \in dev
 \* the quota lock is held by at most one activator per (node, client), and only by calls in flight
 LockOK == /\ \A p, q \in qheld : (p # q) => LockId(p) # LockId(q)
           /\ \A p \in qheld : pc[p] \notin {"idle", "done", "Read", "WLock"}
+\* design variant ResetOnFail: holds only modulo the deviation "resetUndoesRevoke"
+NoActivationAfterDeathZ == NoActivationAfterDeath \/ "resetUndoesRevoke" \in dev
+\* design variant ShortClaim: hold only modulo the deviation "claimLapsed"
+AtMostOneMappingT == AtMostOneMapping \/ "claimLapsed" \in dev
+AtMostOneSuccessT == AtMostOneSuccess \/ "claimLapsed" \in dev
 \* a node-local claim (ClaimLocal): the properties hold only modulo the deviation "localClaim"
 AtMostOneMappingL == AtMostOneMapping \/ "localClaim" \in dev
 AtMostOneSuccessL == AtMostOneSuccess \/ "localClaim" \in dev
@@ -392,11 +451,12 @@ AtMostOneMappingR == AtMostOneMapping \/ "rbLost" \in dev
 \* the repaired design never takes the deviations it removed
 NoLegacyDev == /\ (Claim => "noClaim" \notin dev) /\ (CreateRb => "createNoRb" \notin dev)
                /\ (~ClaimLocal => "localClaim" \notin dev) /\ (~Reclaim => "reclaim" \notin dev)
+               /\ (~ResetOnFail => "resetUndoesRevoke" \notin dev) /\ (~ShortClaim => "claimLapsed" \notin dev)
 \* repaired design: while the code has not expired, the claim holder is the only process that can be
 \* between its claim and its return (mutual exclusion of the create-mark-update section)
-InSection(p) == pc[p] \in {"ClaimGet", "GenId", "CGet", "CSet", "CApp", "CDel", "RelId", "IdxL", "IdxT", "UpdC", "UpdI",
+InSection(p) == pc[p] \in {"RstC", "RstI", "ClaimGet", "GenId", "CGet", "CSet", "CApp", "CDel", "RelId", "IdxL", "IdxT", "UpdC", "UpdI",
                            "RbGet", "RbRemL", "RbRemT", "RbRemG", "RbDel", "RbRelId", "RelClaim"}
-ClaimExcludes == (Claim /\ ~ClaimLocal /\ ~Reclaim /\ ~expired) => Cardinality({p \in Acts : InSection(p)}) <= 1
+ClaimExcludes == (Claim /\ ~ClaimLocal /\ ~Reclaim /\ ~ShortClaim /\ ~expired) => Cardinality({p \in Acts : InSection(p)}) <= 1
 
 \* informational, NOT part of C06 (the statement is silent about index lists; kept for C17): index lists never
 \* name a mapping whose record is gone. Holds in every configuration except expiry + a failing
